@@ -153,7 +153,9 @@ pub struct RandomDirector {
     /// the bytes last injected are a PINGRESP (keep-alive traffic does not count as progress)
     ping_inbound: bool,
     /// the broker answers with success codes only and never varies them (aged / fresh twins)
-    fixed_acks: bool,
+    pub fixed_acks: bool,
+    /// properties the benign broker puts into every CONNACK (systematic programs)
+    pub connack_extra: Vec<Prop>,
     now_ms: u64,
     stalls: u32,
     /// probes run before the benign drain: PUBREL sweep (reveals the pending inbound QoS 2
@@ -206,6 +208,7 @@ impl RandomDirector {
             heal: false,
             ping_inbound: false,
             fixed_acks: false,
+            connack_extra: Vec::new(),
             now_ms: 0,
             stalls: 0,
             probe: false,
@@ -285,6 +288,9 @@ impl RandomDirector {
             if self.chance(0.2) {
                 props.push(Prop { id: 0x26, n: 0, s: b"k".to_vec(), t: b"v".to_vec() });
             }
+        }
+        if self.benign {
+            props.extend(self.connack_extra.iter().cloned());
         }
         self.broker.outq.push_back(rc::connack(sp, 0, &props));
         if sp {
@@ -997,7 +1003,7 @@ pub enum TwinKind {
 /// Deterministic benign broker + fixed program; only the transport schedule differs between the
 /// runs of a pair.
 pub struct TwinDirector {
-    inner: RandomDirector,
+    pub inner: RandomDirector,
     program: VecDeque<Step>,
     kind: TwinKind,
     continuation: Option<Step>,
